@@ -109,10 +109,10 @@ theorem carrying_iff (P : Prog) (hP : SchemaOK P) (hv : P.validateSet = false) (
       (carrying acc = true ↔ ∃ x ∈ ms, findField sd.fields x.1 = none) :=
   carrying_iff_core hP hv i sd fs ws hsd hwt hw hd ms r hm
 
-/-- **keep_roundtrip** (struct/exception, one level; for unions the statement is FALSE, see
-`union_unknown_member_not_rewritable`). `E` bundles: accepted schema, old struct at `iOld`, new struct at
-`iNew` = old + added non-required fields with fresh ids at any positions, a well-typed object `vs` of the new
-struct that writes the fields `wsN` (added values within the Skip depth). Then the old code generated with
+/-- **keep_roundtrip** (struct, exception or union; one level). `E` bundles: accepted schema, old struct at
+`iOld`, new struct at `iNew` = old + added non-required fields with fresh ids at any positions, a well-typed
+object `vs` of the new struct that writes the fields `wsN` (added values within the Skip depth; for a union:
+exactly one member set, i.e. the new code's Write succeeded). Then the old code generated with
 keep_unknown_fields, given the new code's bytes, reads them and writes back the common fields `wsO` (exactly
 what it would write for the projected object) followed by the added fields `wsA` (exactly what the new code
 wrote for them, byte-identical, in arrival order) — a permutation of `wsN`: nothing dropped, duplicated or
@@ -140,23 +140,25 @@ theorem chain {P : Prog} {iOld iNew : Nat} {sdOld sdNew : StructDef} {mask : Lis
         runChain P f sdOld iNew hops b = some (endOf (encFields wsN ++ [0]) (encFields (wsO ++ wsA) ++ [0]) b hops) :=
   chain_core E
 
-/-! ### the union case: keep_roundtrip is false, on the model as on the code
+/-! ### regression item: a union carrying a member the old schema does not know
 
-`old: union U {1: i32 a}`, `new: union U {1: i32 a, 2: string b}`, value `U{b: "hi"}`. -/
+`old: union U {1: i32 a}`, `new: union U {1: i32 a, 2: string b}`, value `U{b: "hi"}`. Before the fix
+"union Write accepts 0 known members when unknown fields are carried" the old code's Write refused this
+object (`CountSetFields` = 0 ≠ 1) and `keep_roundtrip` was false for unions. -/
 
 def unionOld : StructDef := { kind := 1, fields := [{ id := 1, req := .optional, ty := .i32, dflt := none }] }
 def unionProg : Prog := { structs := [unionOld], keepUnknown := true, validateSet := false }
 /-- `0b 0002 00000002 'h' 'i' 00`: what the new code writes for `U{b: "hi"}` -/
 def unionBytes : Bytes := [11, 0, 2, 0, 0, 0, 2, 104, 105, 0]
 
-/-- the old code with keep_unknown_fields READS the new union (and carries the member it does not know), but
-its Write refuses the object: `CountSetFields` counts known members only (0 ≠ 1). -/
-theorem union_unknown_member_not_rewritable :
+/-- the old code with keep_unknown_fields reads the new union, carries the member it does not know, and
+writes it back byte for byte — at one level and in the whole-program model; an empty union is still refused -/
+theorem union_unknown_member_rewritten :
     readStructKU (readTy unionProg.structs 5) unionOld unionBytes = some ([.nil], [], [11, 0, 2, 0, 0, 0, 2, 104, 105]) ∧
-    carrying [11, 0, 2, 0, 0, 0, 2, 104, 105] = true ∧
-    writeStructKU unionProg unionOld [.nil] [11, 0, 2, 0, 0, 0, 2, 104, 105] = .err ∧
-    hopKU unionProg 5 unionOld unionBytes = none ∧
-    writeKU unionProg 0 (.strct [.nil, .bytes [11, 0, 2, 0, 0, 0, 2, 104, 105]]) = .err := by
+    hopKU unionProg 5 unionOld unionBytes = some (unionBytes, true) ∧
+    writeKU unionProg 0 (.strct [.nil, .bytes [11, 0, 2, 0, 0, 0, 2, 104, 105]]) = .ok unionBytes ∧
+    writeStructKU unionProg unionOld [.nil] [] = .err ∧
+    writeKU unionProg 0 (.strct [.nil, .bytes []]) = .err := by
   refine ⟨by rfl, by rfl, by rfl, by rfl, by rfl⟩
 
 /-! ### the hypotheses are satisfiable: `struct S {1: i32 x}` → `struct S {1: i32 x, 2: optional string y}` -/
@@ -185,8 +187,7 @@ example : Evo exProg 0 1 exOld exNew [true, false] [.int 7, .bytes [104, 105]]
       simp only [toW, scalarW, Res.ofOption] at h; cases h; rfl
     subst this; simp [WVal.depth]
   hd := by decide
-  hkO := by decide
-  hkN := by decide
+  hcount := by decide
 
 /-- on that instance the hop is computed: common field first, the added one after it, carrying -/
 example : hopKU exProg 1 exOld [8, 0, 1, 0, 0, 0, 7, 11, 0, 2, 0, 0, 0, 2, 104, 105, 0] =
